@@ -24,8 +24,14 @@ World ==
                             Define("peek", Thunk(<<Var("n")>>)),
                             Define("helper", Thunk(<<Quote(MkSym("library-helper"))>>)),   \* name collides with the importer's
                             Define("show", Thunk(<<Call("helper", <<>>)>>)),
-                            Define("leak", Thunk(<<Var("importer-var")>>))>>,           \* free name the importer may define
-                 exports |-> << <<"next!", "next!">>, <<"peek", "peek">>, <<"show", "show">>, <<"leak", "leak">>, <<"bump", "renamed-bump">> >>])
+                            Define("leak", Thunk(<<Var("importer-var")>>)),             \* free name the importer may define
+                            \* two definitions exported under each other's names, and a procedure that reads them
+                            Define("a-val", Quote(MkSym("internal-a"))), Define("b-val", Quote(MkSym("internal-b"))),
+                            Define("get-ab", Thunk(<<Call("list", <<Var("a-val"), Var("b-val")>>)>>))>>,
+                 \* external names may collide with internal ones: peek is exported as bump (the unexported bump stays what
+                 \* next! calls), a-val and b-val swap names; none of this changes anything INSIDE the library
+                 exports |-> << <<"next!", "next!">>, <<"peek", "peek">>, <<"show", "show">>, <<"leak", "leak">>, <<"bump", "renamed-bump">>,
+                                <<"peek", "bump">>, <<"a-val", "b-val">>, <<"b-val", "a-val">>, <<"get-ab", "get-ab">> >>])
   @@ ("user" :> [imports |-> <<"counter">>,
                  body |-> <<Define("use-counter", Thunk(<<Call("next!", <<>>)>>)),
                             Define("helper", Thunk(<<Quote(MkSym("user-helper"))>>))>>,
@@ -73,7 +79,7 @@ ImportChoices == { <<<<"counter">>, <<"">>>>, <<<<"user">>, <<"">>>>, <<<<"count
 Ops == {Call("next!", <<>>), Call("use-counter", <<>>), Call("peek", <<>>), Call("show", <<>>), Call("leak", <<>>), Call("c:next!", <<>>),
         Define("helper", Thunk(<<Quote(MkSym("importer-helper"))>>)), Call("helper", <<>>),
         Define("next!", Thunk(<<Quote(MkSym("fake"))>>)), Define("importer-var", Num(5)),
-        Var("bump"), Var("n"), Call("renamed-bump", <<>>)}
+        Call("bump", <<>>), Var("n"), Call("renamed-bump", <<>>), Var("a-val"), Var("b-val"), Call("get-ab", <<>>)}
 
 VARIABLES imp, st, hist
 vars == <<imp, st, hist>>
@@ -101,9 +107,10 @@ LibraryFramesAreRoots == \A n \in DOMAIN st.insts : st.m.frames[st.insts[n]].par
 \* the state kept inside (counter) is what all importers see: peek equals the number of next!/use-counter/c:next!/renamed-bump calls
 CounterCalls == Len(SelectSeq(hist, LAMBDA h : h.r.k = "value" /\ h.form.t = "app" /\ h.form.f.t = "var"
                                                  /\ h.form.f.x \in {"next!", "use-counter", "c:next!", "renamed-bump"} /\ h.r.v.t = "int"))
+Peeks == {Call("peek", <<>>), Call("bump", <<>>)}       \* (the importer's bump is the library's peek)
 SharedState == \A i \in DOMAIN hist :
-   (hist[i].form = Call("peek", <<>>) /\ hist[i].r.k = "value") =>
-      hist[i].r.v = MkInt(Len(SelectSeq(SubSeq(hist, 1, i), LAMBDA h : h.r.k = "value" /\ h.r.v.t = "int" /\ h.form # Call("peek", <<>>))))
+   (hist[i].form \in Peeks /\ hist[i].r.k = "value") =>
+      hist[i].r.v = MkInt(Len(SelectSeq(SubSeq(hist, 1, i), LAMBDA h : h.r.k = "value" /\ h.r.v.t = "int" /\ h.form \notin Peeks)))
 Emit == Len(hist) = MaxOps => PrintT(<<"VEC", ToJson([imports |-> imp[1], prefixes |-> imp[2], hist |-> hist,
                                                           world |-> [n \in {"counter", "user"} |-> [name |-> n, imports |-> World[n].imports, body |-> World[n].body, exports |-> World[n].exports]]])>>)
 =============================================================================
